@@ -585,7 +585,7 @@ pub fn check(tier: Tier) -> Outcome {
                 if blk >= 512 {
                     lens.push(70000);
                 }
-                if blk == 8 && tier == Tier::Thorough && ws >= 7 {
+                if blk == 8 && tier == Tier::Thorough && ws == 7 {
                     lens.push(65536 * 8 + 3);
                 }
                 lens.sort();
